@@ -14,14 +14,14 @@ ARITY = {"req": 5, "conv": 1, "arm": 1, "armz": 1, "reply": 1, "creply": 2, "def
 # generator then emits the cases that depend on it.  Nothing else (no environment variable, no
 # probing of /repo) decides this.
 COMMITTED = {
-    "dispatch_sw": False,         # C12_dispatch_sw.diff          connection_dispatch.c: struct _streamWrapper never filled
-    "answer_once": False,         # C12_answer_once.diff          connection_dispatch.c, output_remote.c: answered request stays registered
-    "dgram_nocmd_reply": False,   # C12_dgram_nocmd_reply.diff    connection_dispatch.c: discard branch answers without reply mark
-    "next_size": False,           # C12_next_size.diff            output_remote.c: remoteNext compares the address length with the id length
-    "stream_sync": False,         # C12_stream_sync.diff          stream_sync.c: returns on success, never consumes, short id unchecked
-    "dgram_recv_slice": False,    # C12_dgram_recv_slice.diff     outdata_recv.c: mpt_array_slice(off, len) arguments swapped
-    "dgram_reply_long": False,    # C12_dgram_reply_long.diff     outdata_reply.c: reply longer than 256 bytes copies from NULL
-    "dgram_push_cid": False,      # C12_dgram_push_cid.diff       connection_push.c: datagram backend never clears con->cid
+    "dispatch_sw": True,          # C12_dispatch_sw.diff          connection_dispatch.c: struct _streamWrapper never filled
+    "answer_once": True,          # C12_answer_once.diff          connection_dispatch.c, output_remote.c: answered request stays registered
+    "dgram_nocmd_reply": True,    # C12_dgram_nocmd_reply.diff    connection_dispatch.c: discard branch answers without reply mark
+    "next_size": True,            # C12_next_size.diff            output_remote.c: remoteNext compares the address length with the id length
+    "stream_sync": True,          # C12_stream_sync.diff          stream_sync.c: returns on success, never consumes, short id unchecked
+    "dgram_recv_slice": True,     # C12_dgram_recv_slice.diff     outdata_recv.c: mpt_array_slice(off, len) arguments swapped
+    "dgram_reply_long": True,     # C12_dgram_reply_long.diff     outdata_reply.c: reply longer than 256 bytes copies from NULL
+    "dgram_push_cid": True,       # C12_dgram_push_cid.diff       connection_push.c: datagram backend never clears con->cid
 }
 
 
